@@ -143,6 +143,28 @@ def gen_c03(g, budget, optional=False):
             graphs = g.split(content, g.rng.choice([1, 1, 2]))
             qs.append({"clauses": cls, "proj": proj, "graphs": graphs, "glo": 0, "ghi": 0, "alt": g.rng.random() < 0.5})
             continue
+        if optional and g.rng.random() < 0.14:
+            # chained OPTIONAL clauses: a later one joins on a name that only an earlier OPTIONAL clause introduced, so for
+            # some rows the join value is NULL. How NULL joins is open; that no row of the pattern before it is removed
+            # is not (BQLSemantics!LeftKeptDev).
+            chain = [1, 4, 5, 19, 22, 6, 7, 8, 21]
+            content = sorted(set(g.rng.sample(chain, g.rng.randint(3, 7))) | set(g.content(2, 5)))
+            pp = lambda c_, b_: bqlgen.P(c=c_) if g.rng.random() < 0.7 else bqlgen.P(b=b_)
+            cls = [bqlgen.clause(bqlgen.S(b="?a"), pp(1, "?p1"), bqlgen.O(b="?b")),
+                   bqlgen.clause(bqlgen.S(b="?b"), pp(g.rng.choice([1, 1, 4]), "?p2"), bqlgen.O(b="?c"), opt=True)]
+            x = g.rng.random()
+            if x < 0.5:
+                cls.append(bqlgen.clause(bqlgen.S(b="?c"), pp(g.rng.choice([1, 4, 4]), "?p3"), bqlgen.O(b="?d"), opt=True))
+            elif x < 0.75:
+                cls.append(bqlgen.clause(bqlgen.S(b="?e"), pp(1, "?p3"), bqlgen.O(b="?c"), opt=True))       # joins on the object
+            else:
+                cls.append(bqlgen.clause(bqlgen.S(b="?c"), pp(1, "?p3"), bqlgen.O(b="?a"), opt=True))       # two shared names
+            if g.rng.random() < 0.3:
+                cls.append(bqlgen.clause(bqlgen.S(b="?d" if x < 0.5 else "?c"), bqlgen.P(b="?p4"), bqlgen.O(b="?f"), opt=True))
+            names = bqlgen.pattern_names(cls)
+            proj = names if g.rng.random() < 0.7 else g.proj(cls)
+            qs.append({"clauses": cls, "proj": proj, "graphs": g.split(content, g.rng.choice([1, 1, 2])), "glo": 0, "ghi": 0, "alt": False})
+            continue
         if optional:
             nm = 1 if r < 0.6 else 2
             nopt = 1 if g.rng.random() < 0.7 else 2
@@ -465,6 +487,29 @@ def gen_filter_queries(g, budget):
     return qs
 
 
+def gen_c10_large(g, n):
+    """OPTIONAL clauses met by a table of several hundred rows (two unrelated clauses over 23-34 triples: 529-1156 rows;
+    above 1200 rows a result is not judged), sharing a name whose column holds values of several kinds (nodes, numbers,
+    text, predicates) - whatever is done differently for large tables (another join strategy, blocks, pools) shows here."""
+    qs = []
+    for _ in range(n):
+        k = g.rng.randint(23, 34)
+        content = sorted(g.rng.sample(range(1, len(bqlu.TRIPLES) + 1), k))
+        cls = [bqlgen.clause(bqlgen.S(b="?a"), bqlgen.P(b="?p"), bqlgen.O(b="?b")),
+               bqlgen.clause(bqlgen.S(b="?c"), bqlgen.P(b="?q"), bqlgen.O(b="?d"))]
+        x = g.rng.random()
+        if x < 0.45:
+            cls.append(bqlgen.clause(bqlgen.S(b="?b"), bqlgen.P(c=g.rng.choice([1, 4])), bqlgen.O(b="?x"), opt=True))   # mixed kinds as subject
+        elif x < 0.8:
+            cls.append(bqlgen.clause(bqlgen.S(b="?e"), bqlgen.P(c=g.rng.choice([1, 4])), bqlgen.O(b="?b"), opt=True))   # mixed kinds as object
+        else:
+            cls.append(bqlgen.clause(bqlgen.S(b="?a"), bqlgen.P(b="?q"), bqlgen.O(b="?x"), opt=True))
+        names = bqlgen.pattern_names(cls)
+        proj = [nm for nm in names if nm not in ("?p",)] if g.rng.random() < 0.5 else names
+        qs.append({"clauses": cls, "proj": proj, "graphs": g.split(content, g.rng.choice([1, 1, 2])), "glo": 0, "ghi": 0, "alt": False})
+    return qs
+
+
 def check_bqlfilter(v, tier, d):
     """C09, second part: the filter functions reached through BQL FILTER clauses (bql/planner/filter, planner)."""
     g = Gen(vlib.seed() * 7919 + 909)
@@ -478,6 +523,8 @@ def check_q(prop, v, tier, d, qs=None, covkey=None):
         g = Gen(vlib.seed() * 7919 + (3 if prop == "C03" else 10))
         budget = {"C03": (6000, 150000), "C10": (4000, 80000)}[prop][0 if tier == "quick" else 1]
         qs = gen_c03(g, budget, optional=(prop == "C10"))
+        if prop == "C10":
+            qs = gen_c10_large(g, 3 if tier == "quick" else 12) + qs
         if prop == "C03":
             eq = enum_c03(g, 0.06 if tier == "quick" else 1.0)
             n_enum = len(eq)
@@ -492,6 +539,7 @@ def check_q(prop, v, tier, d, qs=None, covkey=None):
     events, evq = [], []
     stats = {"cases": len(cases), "parser_rejected": 0, "dump_mismatch": 0, "exec_errors": 0, "nonempty": 0}
     distinct = set()
+    mismatches = []
     for q, c in zip(qs, cases):
         r = res[q["id"]]
         hf = hard_failure(r)
@@ -502,7 +550,11 @@ def check_q(prop, v, tier, d, qs=None, covkey=None):
             stats["parser_rejected"] += 1
             continue
         if r["clauses"] != q["clauses"]:
+            # the pattern the real parser extracted is not the AST the text was rendered from: the result is still judged
+            # against the AST (what the text means); the first cases are kept in the evidence
             stats["dump_mismatch"] += 1
+            if len(mismatches) < 3:
+                mismatches.append({"text": c["text"], "ast": q["clauses"], "parsed": r["clauses"]})
         rows = rows_in_order(r, q.get("outnames") or q["proj"]) if not is_err(r) else []
         if rows is None:
             v.reject("result-columns", {"text": c["text"], "cols": r["cols"]}, {"case": c})
@@ -541,7 +593,7 @@ def check_q(prop, v, tier, d, qs=None, covkey=None):
                   "queries_judged": len(events) - opens, "open_not_judged": opens,
                   "distinct_queries": len(distinct), "nonempty_results": stats["nonempty"],
                   "parser_rejected_not_judged": stats["parser_rejected"], "exec_errors": stats["exec_errors"],
-                  "parse_dump_mismatch": stats["dump_mismatch"], "rejected_events": len(rejects),
+                  "parse_dump_mismatch": stats["dump_mismatch"], "parse_dump_mismatch_samples": mismatches, "rejected_events": len(rejects),
                   "results_too_large_for_the_model_not_judged": stats.get("too_large_for_the_model", 0),
                   "samples": [{"text": c["text"], "graphs": q["graphs"], "rows": r["rows"][:4]} for q, c, r in evq[:3]]})
     if covkey:
